@@ -382,6 +382,7 @@ class NumpyStub:
 #
 #   Ragged(name, n, L)      a list of n rows, row k has length L(k)       (n an SInt, L an uninterpreted Int -> Int function)
 #   a + b                   RaggedCat: length a.n + b.n, row g is a's row g for g < a.n, b's row g - a.n otherwise
+#   a[i:j]                  RaggedSlice (constant non-negative bounds, no step): rows min(n, i) .. min(n, j) - 1
 #   for x in <ragged>       MAP RULE for comprehensions: the iterator yields ONE generic row (index g, 0 <= g < length) with branching
 #                           switched off (symnp.NO_FORK), so the element expression is evaluated once, on the generic row; what it returns
 #                           (a GenericSInt) stands for the family { value(g) : 0 <= g < length } and refuses every operation (comparison,
@@ -440,7 +441,13 @@ class _RaggedBase:
         raise looprule.Unavailable("len() of a list of symbolic length must be a Python int")
 
     def __getitem__(self, k):
-        raise core.OutsideSubset("indexing a list of vectors of symbolic shape")
+        # slices with constant non-negative bounds and no step: rows min(n, start) .. min(n, stop) - 1 of the list (Python's list slicing)
+        if isinstance(k, slice) and k.step is None and all(b is None or (isinstance(b, int) and not isinstance(b, bool) and b >= 0) for b in (k.start, k.stop)):
+            n = self.n.z
+            lo = z3.IntVal(0) if k.start is None else z3.If(n < k.start, n, z3.IntVal(k.start))
+            hi = n if k.stop is None else z3.If(n < k.stop, n, z3.IntVal(k.stop))
+            return RaggedSlice(self, lo, z3.If(hi - lo < 0, z3.IntVal(0), hi - lo))
+        raise core.OutsideSubset("indexing a list of vectors of symbolic shape with %r" % (k,))
 
     def __add__(self, o):
         if not isinstance(o, _RaggedBase):
@@ -463,6 +470,14 @@ class RaggedCat(_RaggedBase):
 
     def rowlen(self, g):
         return z3.If(g < self.a.n.z, self.a.rowlen(g), self.b.rowlen(g - self.a.n.z))
+
+
+class RaggedSlice(_RaggedBase):
+    def __init__(self, base, lo, count):
+        self.base, self.lo, self.n = base, lo, SInt(count)
+
+    def rowlen(self, g):
+        return self.base.rowlen(g + self.lo)
 
 
 class SymSet:
